@@ -20,7 +20,11 @@ type c10Params struct {
 	OneWrite bool
 	Dotu     bool
 	Stall    bool // the peer stops reading after the first request: the client's writer blocks inside Write on the second
-	P        int
+	// Prelude: something that happened earlier in the session and went wrong on the client's side only:
+	// "oversize-request" (a request the caller built itself, larger than the msize, which the peer answers
+	// all the same), "pack-fails" (a call whose request does not fit the msize and is refused locally)
+	Prelude string
+	P       int
 }
 
 func (p c10Params) name() string {
@@ -31,6 +35,9 @@ func (p c10Params) name() string {
 	st := ""
 	if p.Stall {
 		st = " writer-stalled"
+	}
+	if p.Prelude != "" {
+		st += " after-" + p.Prelude
 	}
 	return fmt.Sprintf("fail[%s] late=%v fault=%s at=%d sameseg=%v onewrite=%v dotu=%v%s", strings.Join(cs, ","), p.Late, p.Fault, p.At, p.SameSeg, p.OneWrite, p.Dotu, st)
 }
@@ -48,6 +55,26 @@ func c10Scenario(p c10Params) Scenario {
 		cend = ce
 		_ = cend
 		peer = NewPeer(se, p.Dotu)
+		var c *go9p.Clnt
+		if p.Prelude != "" {
+			vs.Go("peer", peer.Serve)
+			c = go9p.NewClnt(ce, 8192, p.Dotu)
+			names := make([]string, 16)
+			for i := range names {
+				names[i] = strings.Repeat("n", 600) // 16 of them: more than 8192 bytes
+			}
+			switch p.Prelude {
+			case "oversize-request":
+				tc := go9p.NewFcall(16384)
+				if err := go9p.PackTwalk(tc, 90, 91, names); err != nil {
+					vs.Fail("prelude: %v", err)
+				}
+				c.Rpc(tc) // whatever it returns: the peer answers it
+			case "pack-fails":
+				c.Walk(mkFid(c, 90), mkFid(c, 91), names)
+			}
+			vs.Idle()
+		}
 		peer.Batch = len(p.Calls)
 		peer.BatchOnce = true
 		peer.OneWrite = p.OneWrite
@@ -80,8 +107,10 @@ func c10Scenario(p c10Params) Scenario {
 		case "writefail":
 			ce.FailOutgoingAt(p.At)
 		}
-		vs.Go("peer", peer.Serve)
-		c := go9p.NewClnt(ce, 8192, p.Dotu)
+		if p.Prelude == "" {
+			vs.Go("peer", peer.Serve)
+			c = go9p.NewClnt(ce, 8192, p.Dotu)
+		}
 		results = make([]*callRes, len(p.Calls))
 		for i := range results {
 			results[i] = &callRes{spec: p.Calls[i]}
@@ -292,6 +321,12 @@ func c10Scenarios(tier string) []Scenario {
 		out = append(out, c10Scenario(c10Params{Calls: three, Fault: "peerclose", Late: lateC, P: D + 1}))
 		out = append(out, c10Scenario(c10Params{Calls: nil, Fault: "cut", At: 0, Late: lateC, P: D + 2}))
 		out = append(out, c10Scenario(c10Params{Calls: three[:1], Fault: "cut", At: 0, Late: lateC, Dotu: true, P: D + 2}))
+	}
+	// the connection fails some time after a call went wrong on the client's side alone
+	for i, pre := range []string{"oversize-request", "pack-fails"} {
+		for j, f := range []string{"peerclose", "unknowntag", "garbage", "unmount"} {
+			out = append(out, c10Scenario(c10Params{Calls: two, Fault: f, At: 0, Prelude: pre, Dotu: (i+j)%2 == 0, Late: j%2 == 0, P: D}))
+		}
 	}
 	if tier == "thorough" {
 		for off := 0; off <= 104; off += 1 {
